@@ -15,7 +15,7 @@ CLAIMED = {
              "back to a 'violated' verdict, and two integer sizes are always decided. So nothing consistent is rejected, and "
              "compilation fails only if the sizes differ for every assignment. Partial: that preprocessing generates the right "
              "constraint for every re-declared port (detection) is checked by the size-mismatch stream against the bottom-up "
-             "denotation (mismatch at some port <=> BartiqCompilationError at compile or evaluate, 4 total assignments per case).",
+             "denotation (mismatch at some port <=> BartiqCompilationError at compile or evaluate, 4 total assignments per case). New: preprocessing loses no size declaration (PortVarFacts: every constant or compound size becomes a retained constraint, a repeated symbol a constraint between port variables, a new symbol a local variable).",
         design_ref="DESIGN.md section 5 C06",
         note="Trusted: Coq kernel; the normal form is a model of sympy's expand on the polynomial fragment (tied by the stream: "
              "constraint statuses and error classes of the real code); both sizes integer-valued.",
@@ -138,7 +138,7 @@ CLAIMED = {
              "sum/product of the children's values; propagation never replaces or retypes an explicit definition; each generated "
              "repetition sum is linear in the child's value (weights factor out). Partial: their composition over the tree is "
              "checked by the stream: every resource of every node of the real compiled tree equals the bottom-up denotation "
-             "(sum/product over exactly the children that have it), plus the weighted leaf-sum for leaf-only additive resources.",
+             "(sum/product over exactly the children that have it), plus the weighted leaf-sum for leaf-only additive resources. New: for every non-repeated routine the compile model compiles, the value of a propagated additive / multiplicative resource is at every point the sum / product of the children's own compiled values (ChildRefFacts).",
         design_ref="DESIGN.md section 5 C08",
         note="Trusted: Coq kernel; compile/preprocessing model tied by the stream; one resource name with two types among siblings is outside the domain.",
         technique="Coq lemmas on propagation and linearity of generated repetition formulas + denotational comparison stream",
